@@ -191,6 +191,77 @@ def task_tendency(ctx, cfg, variant, levels, lname, kind):
     prove_close(ctx, 'tendency.shallow_water', both, [v, d, p], sp, config=conf)
 
 
+def task_static_identity(ctx):
+  """Objects that the library passes to jax.jit as STATIC arguments (grids, coordinate systems, level sets, regridders, specs) are looked up in the
+  compiled-function cache by equality / hash: two objects that differ in ANY constructor field must compare unequal (otherwise the second one silently
+  reuses the program compiled for the first), equal objects must hash equal.  Enumerated field by field (concrete; reported as enumeration)."""
+  import dataclasses
+  from dinosaur import spherical_harmonic as sh, coordinate_systems as cs, sigma_coordinates as sc, layer_coordinates as lc, horizontal_interpolation as hi
+  from dinosaur import primitive_equations as pe, vertical_interpolation as vi, scales
+  ctx.encoded(sh.Grid, cs.CoordinateSystem, sc.SigmaCoordinates.__eq__, sc.SigmaCoordinates.__hash__, hi.ConservativeRegridder, hi.BilinearRegridder)
+  bad = []
+  n = 0
+
+  def distinct(label, a, b):
+    nonlocal n
+    n += 1
+    try:
+      if a == b or (hash(a) == hash(b) and a == b):
+        bad.append(f'{label}: objects that differ compare equal')
+    except TypeError:
+      pass                              # unhashable / incomparable objects cannot be static arguments
+
+  def same(label, a, b):
+    nonlocal n
+    n += 1
+    try:
+      if not (a == b) or hash(a) != hash(b):
+        bad.append(f'{label}: identical constructions are not equal / do not hash equal')
+    except TypeError:
+      pass
+  g0 = dict(longitude_wavenumbers=4, total_wavenumbers=5, longitude_nodes=12, latitude_nodes=6, latitude_spacing='gauss', longitude_offset=0.0, radius=1.0,
+            spherical_harmonics_impl=sh.RealSphericalHarmonics)
+  alt = dict(longitude_wavenumbers=3, total_wavenumbers=4, longitude_nodes=13, latitude_nodes=7, latitude_spacing='equiangular', longitude_offset=0.25, radius=2.0,
+             spherical_harmonics_impl=sh.FastSphericalHarmonics)
+  G0 = sh.Grid(**g0)
+  same('Grid', G0, sh.Grid(**g0))
+  for k, v in alt.items():
+    distinct(f'Grid.{k}', G0, sh.Grid(**dict(g0, **{k: v})))
+  import functools
+  distinct('Grid.spherical_harmonics_impl options', sh.Grid(**dict(g0, spherical_harmonics_impl=functools.partial(sh.FastSphericalHarmonics, base_shape_multiple=4))),
+           sh.Grid(**dict(g0, spherical_harmonics_impl=functools.partial(sh.FastSphericalHarmonics, base_shape_multiple=8))))
+  s0 = sc.SigmaCoordinates(np.array([0, 0.3, 1.0]))
+  same('SigmaCoordinates', s0, sc.SigmaCoordinates(np.array([0, 0.3, 1.0])))
+  distinct('SigmaCoordinates.boundaries', s0, sc.SigmaCoordinates(np.array([0, 0.4, 1.0])))
+  distinct('SigmaCoordinates.layers', s0, sc.SigmaCoordinates(np.array([0, 0.3, 0.6, 1.0])))
+  same('CoordinateSystem', cs.CoordinateSystem(G0, s0), cs.CoordinateSystem(sh.Grid(**g0), sc.SigmaCoordinates(np.array([0, 0.3, 1.0]))))
+  distinct('CoordinateSystem.vertical', cs.CoordinateSystem(G0, s0), cs.CoordinateSystem(G0, sc.SigmaCoordinates(np.array([0, 0.4, 1.0]))))
+  distinct('CoordinateSystem.horizontal', cs.CoordinateSystem(G0, s0), cs.CoordinateSystem(sh.Grid(**dict(g0, longitude_offset=0.1)), s0))
+  distinct('CoordinateSystem vertical kind', cs.CoordinateSystem(G0, s0), cs.CoordinateSystem(G0, lc.LayerCoordinates(2)))
+  distinct('LayerCoordinates.layers', lc.LayerCoordinates(2), lc.LayerCoordinates(3))
+  G1 = sh.Grid(**dict(g0, longitude_nodes=8, latitude_nodes=4, longitude_wavenumbers=2, total_wavenumbers=3))
+  for cls in (hi.ConservativeRegridder, hi.BilinearRegridder, hi.NearestRegridder):
+    same(cls.__name__, cls(G0, G1), cls(G0, G1))
+    distinct(f'{cls.__name__}.source_grid', cls(G0, G1), cls(sh.Grid(**dict(g0, longitude_offset=0.2)), G1))
+    distinct(f'{cls.__name__}.target_grid', cls(G0, G1), cls(G0, sh.Grid(**dict(g0, latitude_spacing='equiangular'))))
+  distinct('ConservativeRegridder.skipna', hi.ConservativeRegridder(G0, G1, skipna=False), hi.ConservativeRegridder(G0, G1, skipna=True))
+  p0 = pe.PrimitiveEquationsSpecs.from_si()
+  same('PrimitiveEquationsSpecs', p0, pe.PrimitiveEquationsSpecs.from_si())
+  for f_ in dataclasses.fields(pe.PrimitiveEquationsSpecs):
+    if f_.name == 'scale':
+      distinct('PrimitiveEquationsSpecs.scale', p0, dataclasses.replace(p0, scale=scales.ATMOSPHERIC_SCALE))
+    else:
+      distinct(f'PrimitiveEquationsSpecs.{f_.name}', p0, dataclasses.replace(p0, **{f_.name: getattr(p0, f_.name) * 1.5 + 0.25}))
+  h0 = vi.HybridCoordinates(a_boundaries=np.array([0.0, 20.0, 0.0]), b_boundaries=np.array([0.0, 0.3, 1.0]))
+  distinct('HybridCoordinates.a_boundaries', h0, vi.HybridCoordinates(a_boundaries=np.array([0.0, 30.0, 0.0]), b_boundaries=np.array([0.0, 0.3, 1.0])))
+  distinct('PressureCoordinates.centers', vi.PressureCoordinates(np.array([100.0, 500.0])), vi.PressureCoordinates(np.array([100.0, 600.0])))
+  conf = dict(cases=n)
+  ctx.clause('static_arguments_are_distinguished_by_every_field', 'discharged' if not bad else 'failed', config=dict(conf, exhaustive=True), queries=0, elements=n)
+  if bad:
+    ctx.violation('static_arguments_are_distinguished_by_every_field', dict(config=conf, kind='static-identity', what=bad[:6]), dict(problems=bad),
+                  'objects used as static jit arguments: ' + '; '.join(bad[:3]))
+
+
 def make_tasks(tier, seed):
   base_cfgs = [dict(M=3, L=4, nlon=8, nlat=5), dict(M=4, L=5, nlon=13, nlat=7, radius=2.5, offset=0.2),
                dict(M=3, L=4, nlon=10, nlat=9, spacing='equiangular'), dict(M=2, L=4, nlon=7, nlat=6, spacing='equiangular_with_poles'),
@@ -210,6 +281,7 @@ def make_tasks(tier, seed):
       vs = [dict(), dict(base=8, stacked=True, reverse=True)]
     for v in vs:
       tasks.append(dict(name=f"ops-{grids.cfg_name(cfg)}-{'_'.join(f'{k}{int(x)}' for k, x in v.items()) or 'default'}", fn='task_ops', kw=dict(cfg=cfg, variant=v)))
+  tasks.append(dict(name='static-identity', fn='task_static_identity', kw={}))
   tcfg = dict(M=3, L=4, nlon=8, nlat=5)
   LS = models.level_sets(seed)
   for kind, v in (('dry', dict(base=4, stacked=False, reverse=True)), ('moist', dict(base=1, stacked=True)), ('sw', dict(base=2, stacked=True, reverse=True))):
